@@ -805,7 +805,11 @@ class Engine:
                     for e in evs or ():
                         emit(e[0], bi, "term", e[1], e[2])
             # closures / fn items passed to a callee we did not analyse with them bound
+            skip_join = getattr(self, "closures_handled", False)
+            self.closures_handled = False
             for j, av in enumerate(argvals):
+                if skip_join and not want_events:
+                    break
                 for lab in list(av.t.get((), EMPTY)):
                     if lab.startswith("closure:") or lab.startswith("fn:"):
                         cid = lab.split(":", 1)[1]
@@ -825,7 +829,8 @@ class Engine:
                         else:
                             avs = [others] * cb["argc"]
                         r, w = self.apply_summary(summ, avs)
-                        ret = v_join(ret, scalar(v_flat(r)))
+                        if not skip_join:
+                            ret = v_join(ret, scalar(v_flat(r)))
                         if want_events:
                             for (kind, sink), (ls, info) in summ.events.items():
                                 sl = self.subst(ls, avs)
